@@ -25,6 +25,7 @@ import (
 	"net"
 	"os"
 	"reflect"
+	"sort"
 	"strings"
 	"sync"
 	"testing"
@@ -282,6 +283,171 @@ func c11Shape(key, ver int16, reply []byte) (shape int, dec bool) {
 	return 2, d0 || d1
 }
 
+
+// ---------------------------------------------------------------- boundary-size stream
+//
+// For every advertised (key, version) and every string / nullable string / bytes / array field of the
+// request (nested fields are reached through one-element arrays), requests whose field has a boundary
+// size: 0, 1, 127/128, 255/256, 32766/32767/32768 (65536 for bytes) — whatever the request encoding
+// allows (kmsg rejecting the request is not a case). Numeric fields are 0 or 1, so that many of these
+// requests FAIL in the handler and error strings derived from the request are produced; every request
+// is sent twice (the second attempt hits "already exists" paths). The reply must decode at the request
+// version; the longest string found in each decoded response is recorded per (key, version).
+
+// c11Expand gives every array one element and every string a short value, so nested fields exist.
+func c11Expand(v reflect.Value, depth int, one int64) {
+	switch v.Kind() {
+	case reflect.Int8, reflect.Int16, reflect.Int32, reflect.Int64:
+		v.SetInt(one)
+	case reflect.String:
+		v.SetString("t")
+	case reflect.Ptr:
+		if v.Type().Elem().Kind() == reflect.String {
+			s := "t"
+			v.Set(reflect.ValueOf(&s))
+		}
+	case reflect.Slice:
+		if v.Type().Elem().Kind() == reflect.Uint8 {
+			v.SetBytes([]byte{1})
+			return
+		}
+		if depth > 5 {
+			return
+		}
+		s := reflect.MakeSlice(v.Type(), 1, 1)
+		c11Expand(s.Index(0), depth+1, one)
+		v.Set(s)
+	case reflect.Struct:
+		t := v.Type()
+		for i := 0; i < v.NumField(); i++ {
+			f := t.Field(i)
+			if !f.IsExported() || f.Name == "Version" || f.Name == "UnknownTags" || !v.Field(i).CanSet() {
+				continue
+			}
+			c11Expand(v.Field(i), depth+1, one)
+		}
+	}
+}
+
+// c11WalkSet visits the size-carrying leaves in a fixed order; leaf number target gets size L.
+// Returns the kinds of the leaves visited ("string", "bytes", "array-scalar", "array-struct").
+func c11WalkSet(v reflect.Value, n *int, target, L int, path string, kinds *[]string) {
+	hit := func(kind string) bool {
+		*kinds = append(*kinds, kind+" "+path)
+		*n++
+		return *n-1 == target
+	}
+	switch v.Kind() {
+	case reflect.String:
+		if hit("string") {
+			v.SetString(strings.Repeat("a", L))
+		}
+	case reflect.Ptr:
+		if v.Type().Elem().Kind() == reflect.String {
+			if hit("string") {
+				s := strings.Repeat("a", L)
+				v.Set(reflect.ValueOf(&s))
+			}
+		}
+	case reflect.Slice:
+		if v.Type().Elem().Kind() == reflect.Uint8 {
+			if hit("bytes") {
+				v.SetBytes(bytes.Repeat([]byte{7}, L))
+			}
+			return
+		}
+		kind := "array-scalar"
+		if v.Type().Elem().Kind() == reflect.Struct {
+			kind = "array-struct"
+		}
+		if hit(kind) {
+			s := reflect.MakeSlice(v.Type(), L, L)
+			for i := 0; i < L && v.Len() > 0; i++ {
+				s.Index(i).Set(v.Index(0))
+			}
+			v.Set(s)
+			return
+		}
+		for i := 0; i < v.Len(); i++ {
+			c11WalkSet(v.Index(i), n, target, L, path+"[]", kinds)
+		}
+	case reflect.Struct:
+		t := v.Type()
+		for i := 0; i < v.NumField(); i++ {
+			f := t.Field(i)
+			if !f.IsExported() || f.Name == "Version" || f.Name == "UnknownTags" || !v.Field(i).CanSet() {
+				continue
+			}
+			c11WalkSet(v.Field(i), n, target, L, path+"."+f.Name, kinds)
+		}
+	}
+}
+
+// c11Boundary builds the request for (key, ver) whose leaf number target has size L; ok=false past the last leaf.
+func c11Boundary(key, ver int16, one int64, target, L int) (body []byte, kind string, ok bool) {
+	req := kmsg.RequestForKey(key)
+	req.SetVersion(ver)
+	defer func() {
+		if rec := recover(); rec != nil {
+			ok = false
+		}
+	}()
+	c11Expand(reflect.ValueOf(req).Elem(), 0, one)
+	req.SetVersion(ver)
+	n := 0
+	var kinds []string
+	c11WalkSet(reflect.ValueOf(req).Elem(), &n, target, L, "", &kinds)
+	if target >= n {
+		return nil, "", false
+	}
+	c11Tame(vNewRand(uint64(target)*131+uint64(L)), req)
+	return req.AppendTo(nil), kinds[target], true
+}
+
+// c11MaxString: the longest string / nullable string in a decoded kmsg response.
+func c11MaxString(v reflect.Value, depth int) int {
+	m := 0
+	switch v.Kind() {
+	case reflect.String:
+		return v.Len()
+	case reflect.Ptr, reflect.Interface:
+		if !v.IsNil() && depth < 12 {
+			return c11MaxString(v.Elem(), depth+1)
+		}
+	case reflect.Slice, reflect.Array:
+		if v.Type().Elem().Kind() == reflect.Uint8 {
+			return 0
+		}
+		for i := 0; i < v.Len(); i++ {
+			if x := c11MaxString(v.Index(i), depth+1); x > m {
+				m = x
+			}
+		}
+	case reflect.Struct:
+		for i := 0; i < v.NumField(); i++ {
+			if v.Type().Field(i).IsExported() {
+				if x := c11MaxString(v.Field(i), depth+1); x > m {
+					m = x
+				}
+			}
+		}
+	}
+	return m
+}
+
+func c11ReplyMaxString(key, ver int16, reply []byte, flexible bool) int {
+	resp := kmsg.ResponseForKey(key)
+	resp.SetVersion(ver)
+	off := 4
+	if flexible {
+		off = 5
+	}
+	if len(reply) < off || resp.ReadFrom(reply[off:]) != nil {
+		return -1
+	}
+	return c11MaxString(reflect.ValueOf(resp).Elem(), 0)
+}
+
 const c11Deadline = 3 * time.Second
 
 type c11Obs struct {
@@ -382,6 +548,8 @@ func TestVerifC11(t *testing.T) {
 		return v
 	}
 
+	quiet := false                    // boundary-size stream: oracle only, no per-case Coq term
+	maxStr := map[[2]int16]int{}      // longest string seen in a decoded response, per (key, reply version)
 	check := func(cs c11Case, o c11Obs, advertised bool) {
 		name := kmsg.NameForKey(cs.Key)
 		key := func(s string) string { return fmt.Sprintf("%s:%s-v%d", s, name, cs.Version) }
@@ -395,8 +563,12 @@ func TestVerifC11(t *testing.T) {
 			return
 		}
 		if advertised {
-			if o.err != nil {
+			if o.err != nil && (o.guard || o.unsupported) {
 				rep.Fail("advertised-served", key("advertised-rejected"), fmt.Sprintf("advertised %s v%d answered with an error instead of a reply: %v", name, cs.Version, o.err), cs)
+			} else if o.err != nil {
+				// an error caused by the request's content: the server answers through buildErrorResponse; that reply was
+				// fetched through the real server (errPathReply) — none arriving is a failure
+				rep.Fail("advertised-served", key("error-path-no-reply"), fmt.Sprintf("advertised %s v%d: handler error %v and no error response reached the client", name, cs.Version, o.err), cs)
 			} else if !o.replied {
 				rep.Fail("advertised-served", key("advertised-no-reply"), fmt.Sprintf("advertised %s v%d got no reply", name, cs.Version), cs)
 			}
@@ -418,9 +590,18 @@ func TestVerifC11(t *testing.T) {
 				if kresp.IsFlexible() && cs.Key != 18 {
 					want = 1
 				}
-				okWant, _ := c11Decode(cs.Key, rv, o.reply, want == 1)
+				okWant, exactWant := c11Decode(cs.Key, rv, o.reply, want == 1)
+				if dec && okWant {
+					if m := c11ReplyMaxString(cs.Key, rv, o.reply, want == 1); m > maxStr[[2]int16{cs.Key, rv}] {
+						maxStr[[2]int16{cs.Key, rv}] = m
+					}
+				}
 				if !dec || !okWant {
 					rep.Fail("decodable", key("undecodable"), fmt.Sprintf("%s v%d: kmsg cannot decode the reply at version %d with the %s header (%d bytes: %x)", name, cs.Version, rv, []string{"non-flexible", "flexible"}[want], len(o.reply), c11Cut(o.reply)), cs)
+				} else if !exactWant {
+					// kmsg's readers are lenient (a negative string length reads as null, trailing bytes are ignored): a reply
+					// that decodes but does not re-encode to the same bytes is mis-framed — a strict client reads garbage
+					rep.Fail("decodable", key("misframed"), fmt.Sprintf("%s v%d: the reply decodes at version %d only leniently: re-encoding the decoded response gives different bytes (a length prefix wrapped or bytes are left over); %d bytes: %x", name, cs.Version, rv, len(o.reply), c11Cut(o.reply)), cs)
 				} else if shape != 2 && shape != want {
 					rep.Fail("header-shape", key("header-shape"), fmt.Sprintf("%s v%d: reply header shape %d, Kafka rule says %d", name, cs.Version, shape, want), cs)
 				}
@@ -430,9 +611,34 @@ func TestVerifC11(t *testing.T) {
 				}
 			}
 		}
-		emit(fmt.Sprintf("CReply %s %s %s %s %s %d %s", cqZ(int64(cs.Key)), cqZ(int64(cs.Version)), cqBool(o.unsupported), cqBool(o.guard), cqBool(o.replied), shape, cqZ(int64(rv))), cs)
+		if !quiet {
+			emit(fmt.Sprintf("CReply %s %s %s %s %s %d %s", cqZ(int64(cs.Key)), cqZ(int64(cs.Version)), cqBool(o.unsupported), cqBool(o.guard), cqBool(o.replied), shape, cqZ(int64(rv))), cs)
+		}
 	}
 
+	// errPathReply: the handler returned an error that is about the request's content (not a version guard /
+	// unsupported API): what the client receives is decided by broker.Server's error path — take it from there.
+	srvFor := map[*handler]string{}
+	errPathReply := func(hh *handler, cs c11Case, o c11Obs) c11Obs {
+		if o.err == nil || o.guard || o.unsupported || o.panicked || o.hung {
+			return o
+		}
+		addr, ok := srvFor[hh]
+		if !ok {
+			addr = c11Serve(t, hh)
+			srvFor[hh] = addr
+		}
+		if addr == "" {
+			return o
+		}
+		reply, replied, err := c11ViaServer(addr, c11Payload(cs.Key, cs.Version, 0x0badcafe, cs.Body))
+		if err != nil || !replied {
+			return o
+		}
+		rep.Hist("content-error-path")
+		o.reply, o.replied, o.err = reply, true, nil
+		return o
+	}
 	runHandle := func(cs c11Case) {
 		t0 := time.Now()
 		o := c11ViaHandle(h, c11Payload(cs.Key, cs.Version, 0x0badcafe, cs.Body))
@@ -446,8 +652,8 @@ func TestVerifC11(t *testing.T) {
 		rep.Count(fmt.Sprintf("%d/%d/%x", cs.Key, cs.Version, cs.Body), cs.Class == "generated-body" && isAdvertised(cs.Key, cs.Version))
 		rep.Hist(cs.Class)
 		if o.err != nil {
-			// what the server would send: checked through the real Server below; here only classify
 			o.replied = false
+			o = errPathReply(h, cs, o)
 		}
 		check(cs, o, isAdvertised(cs.Key, cs.Version))
 	}
@@ -536,6 +742,61 @@ func TestVerifC11(t *testing.T) {
 				}
 			}
 		}
+		// boundary-size stream (own handler + store: it creates topics with very long names)
+		{
+			hb := newHandler(metadata.NewInMemoryStore(defaultMetadata()), storage.NewMemoryS3Client(), protocol.MetadataBroker{NodeID: 1, Host: "localhost", Port: 19092}, testLogger())
+			strLens := []int{0, 1, 127, 128, 255, 256, 32766, 32767, 32768}
+			byteLens := []int{0, 1, 127, 128, 255, 256, 32767, 32768, 65536}
+			arrLens := []int{0, 1, 127, 128, 255, 256}
+			bigArr := []int{32767, 32768}
+			quiet = true
+			for _, e := range adv {
+				for v := e.MinVersion; v <= e.MaxVersion && v >= 0; v++ {
+					for target := 0; ; target++ {
+						_, kind, ok := c11Boundary(e.ApiKey, v, 1, target, 1)
+						if !ok {
+							break
+						}
+						lens := strLens
+						switch {
+						case strings.HasPrefix(kind, "bytes"):
+							lens = byteLens
+						case strings.HasPrefix(kind, "array-scalar"):
+							lens = arrLens
+							if vTier() == "thorough" {
+								lens = append(append([]int{}, arrLens...), bigArr...)
+							}
+						case strings.HasPrefix(kind, "array-struct"):
+							lens = arrLens
+						}
+						for _, L := range lens {
+							for _, one := range []int64{0, 1} {
+								body, _, ok := c11Boundary(e.ApiKey, v, one, target, L)
+								if !ok {
+									continue
+								}
+								cs := c11Case{Key: e.ApiKey, Version: v, Body: body, Via: "handle", Class: "boundary-size"}
+								for attempt := 0; attempt < 2; attempt++ { // the second attempt reaches the "already exists" paths
+									o := c11ViaHandle(hb, c11Payload(cs.Key, cs.Version, 0x0badcafe, cs.Body))
+									if o.err != nil && strings.HasPrefix(o.err.Error(), "parse:") {
+										rep.Hist("boundary-rejected-by-kmsg")
+										break
+									}
+									rep.Evaluations++
+									rep.Hist("boundary-" + strings.Fields(kind)[0])
+									if o.err != nil {
+										o.replied = false
+										o = errPathReply(hb, cs, o)
+									}
+									check(cs, o, true)
+								}
+							}
+						}
+					}
+				}
+			}
+			quiet = false
+		}
 		startServer()
 		if srvAddr == "" {
 			rep.Notes = append(rep.Notes, "loopback server did not start; error path not exercised")
@@ -557,6 +818,33 @@ func TestVerifC11(t *testing.T) {
 					runServer(c11Case{Key: k, Version: v, Body: body, Via: "server", Class: class})
 				}
 			}
+		}
+	}
+	{
+		type kv struct {
+			k, v int16
+			m    int
+		}
+		var all []kv
+		for p, m := range maxStr {
+			all = append(all, kv{p[0], p[1], m})
+		}
+		sort.Slice(all, func(i, j int) bool {
+			if all[i].k != all[j].k {
+				return all[i].k < all[j].k
+			}
+			return all[i].v < all[j].v
+		})
+		top := ""
+		for _, e := range all {
+			coq = append(coq, fmt.Sprintf("CRespStrings %s %s %d", cqZ(int64(e.k)), cqZ(int64(e.v)), e.m))
+			jsons = append(jsons, fmt.Sprintf(`{"resp_strings":{"key":%d,"version":%d,"max":%d}}`, e.k, e.v, e.m))
+			if e.m >= 256 {
+				top += fmt.Sprintf(" %s v%d: %d;", kmsg.NameForKey(e.k), e.v, e.m)
+			}
+		}
+		if top != "" {
+			rep.Notes = append(rep.Notes, "longest string in a decoded response, per API/version (>= 256 bytes):"+top)
 		}
 	}
 	rep.Cases("C11_broker", "From KS Require Import lib.Base gen.ApiTables model.ApiVersions corr.ApiVersionsCorr.", "case", "check_case", coq, jsons)
